@@ -12,6 +12,7 @@ import DesyncModel.Inv.DrainReach
 import DesyncModel.Inv.ResReach
 import DesyncModel.Inv.TaskWaker
 import DesyncModel.Inv.FutMono
+import DesyncModel.Inv.KindReach
 
 namespace Desync.C07
 open Desync Gen
@@ -204,5 +205,35 @@ theorem sync_future_keeps_its_parts {s s' : State} {l : Label} (hstep : next s l
     (hu : s.sfs[u]? = some sf) : ∃ sf', s'.sfs[u]? = some sf' ∧ sf'.f = sf.f ∧ sf'.q = sf.q ∧ sf'.op = sf.op := by
   obtain ⟨sf', h1, h2, h3, h4, _⟩ := (futMono_next hstep).2 u sf hu
   exact ⟨sf', h1, h2, h3, h4⟩
+
+/-- **The future a job will signal belongs to the job's own queue**, in every reachable state (`KindInv`: inductive over all
+program counters — a list-valued classifier follows every `schedule_job_desync` in progress, at the head of a program counter
+or inside a continuation — and over every environment step, with `FutMono` and the job table's monotonicity): for a
+`future_desync` / `after` job the completion future, for the slot job of `future_sync` the completion future *and* the
+`SyncFuture` it serves, for a suspend job both of its futures.  So `.sync()` on a returned future waits on the object its
+operation really runs on, and a queue that is `WaitingForPoll(f)` on behalf of one of its jobs is `f`'s own queue. -/
+theorem job_futures_belong_to_the_jobs_queue {s : State} (hr : Reachable s) {j : Nat} {jb : Job} (hj : s.jobs[j]? = some jb) :
+    (∀ op g r, jb.kind = .fut op g r → ∃ fu, s.futs[r]? = some fu ∧ fu.q = jb.q) ∧
+    (∀ op g r, jb.kind = .after op g r → ∃ fu, s.futs[r]? = some fu ∧ fu.q = jb.q) ∧
+    (∀ u r, jb.kind = .slot u r → (∃ fu, s.futs[r]? = some fu ∧ fu.q = jb.q) ∧ (∃ sf, s.sfs[u]? = some sf ∧ sf.q = jb.q)) ∧
+    (∀ op g fs r, jb.kind = .susp op g fs r → (∃ fu, s.futs[fs]? = some fu ∧ fu.q = jb.q) ∧ (∃ fu, s.futs[r]? = some fu ∧ fu.q = jb.q)) := by
+  have h := (kindInv_reachable hr).jobs j jb hj
+  have key : ∀ r, futQ s.futs r = some jb.q → ∃ fu, s.futs[r]? = some fu ∧ fu.q = jb.q := by
+    intro r hq
+    unfold futQ at hq
+    cases hf : s.futs[r]? with
+    | none => rw [hf] at hq; cases hq
+    | some fu => rw [hf] at hq; exact ⟨fu, rfl, by simpa using hq⟩
+  have keyS : ∀ u, sfQ s.sfs u = some jb.q → ∃ sf, s.sfs[u]? = some sf ∧ sf.q = jb.q := by
+    intro u hq
+    unfold sfQ at hq
+    cases hf : s.sfs[u]? with
+    | none => rw [hf] at hq; cases hq
+    | some sf => rw [hf] at hq; exact ⟨sf, rfl, by simpa using hq⟩
+  refine ⟨?_, ?_, ?_, ?_⟩
+  · intro op g r hk; rw [hk] at h; exact key r h
+  · intro op g r hk; rw [hk] at h; exact key r h
+  · intro u r hk; rw [hk] at h; exact ⟨key r h.1, keyS u h.2⟩
+  · intro op g fs r hk; rw [hk] at h; exact ⟨key fs h.1, key r h.2⟩
 
 end Desync.C07
